@@ -919,7 +919,7 @@ OPEN_ITEMS = [
     "bool_series_exact_upto3 (bounded in-kernel check, n <= 3, in Proofs/SolveCarriers.v) is kept beside the unbounded C09_least_is_series_bool_exact",
     "tier B, termination: C09_psolve_loop_terminates bounds the passes of PatternedTensor.solve's axis loop by amsr(e0) * (amsr(e0) + 1) for all patterns in normal form (no size-1 factor inside a product) with one size per physical axis, UNLESS a warning (index type mismatch) is issued on the way; that typed patterns never warn in later passes is not proved (the typing judgement of C06 is not preserved by antiunify); failures of the fuel-bounded axis functions of the model (LErr) are a separate outcome",
     "tier B, projection: lines 1430-1458 of PatternedTensor.solve (freshen / unify / project / clone / to_dense of a and b onto the computed axis) are modelled by their result (gather2) and compared with the observed operands of solve_thunks on every case; no statement-level Gallina model of that part (C07's project_view could be reused)",
-    "tier B: C09_psolve_denotes_least is stated for the dense tensors A, B the arguments denote (premises: A vanishes outside a's pattern, B outside b's); the link 'denote a / denote b satisfy these premises' (C06's index_sound) and the default_to / freshen prologue are exercised by the correspondence only",
+    "tier B: the link to PTensor.denote is proved for a matrix a and a VECTOR b whose defaults are the semiring zero (C09_psolve_tensor_least, C09_psolve_tensor_early_least); for a matrix right-hand side C09_psolve_denotes_least is stated for dense A, B that vanish outside the patterns; the default_to / freshen prologue (densified tensors, renamed axes denote the same tensor: C06) is exercised by the correspondence only",
 ]
 
 def replay(path):
@@ -973,7 +973,7 @@ def replay(path):
 
 MANIFEST = dict(
     level="proof",
-    text="Coq theorems, generic over an abstract ordered star-semiring (law records as premises): recursive elimination of the unknowns in ANY order yields a solution of x = A x + b (from star-unfold alone) that is below every pre-solution (from star-induction); the in-place Gauss-Jordan loop of Semiring.solve_thunks (modelled statement by statement on lists, vector and matrix right-hand sides) computes the same vector; the partial sums of sum A^k b are below it, with equality at N = dim in bool; the block version over an abstract ordered star-semimodule (non-commutative coefficients) and its instance by N x N matrices with the dense solver on the diagonal blocks; RealSemiring's LU fast path agrees with the generic routine when its oracle returns the unique rational solution; multi_mv equals the dense product of the assembled blocks (also transposed); the model of _order_nonterminals returns a duplicate-free enumeration of the keys for every set-iteration order; the matrix star over a commutative ordered star-semiring: A* = A* A + 1 from the left laws alone, (A^T)* = (A*)^T, the least solution of X = X A + B is (solve (A^T) (B^T))^T = B . A* (C09_right_solve_least, C09_mul_star_least, C09_solve_transposed, C09_star_transpose); C09_multi_solve_refines: multi_solve_model (block LU over the PRESENT blocks with a[x,z] := a[x,z] a[z,z]* computed by the transposed solve, Schur updates, block back-substitution) computes, block by block, the block elimination belim instantiated with matrices, for every key set with shapes, every presence pattern (absent = zero: annihilation, solve of a zero matrix = identity), every duplicate-free elimination order and both transpose flags; hence the assembled result is the LEAST solution of x = A x + b of the assembled dense system and equals solve_model of it (verdict 13 of the multi check is impossible), also with the order computed by the model of _order_nonterminals (empty a: order [], result b); soundness/completeness of the executable oracles is_solution_b, series_le_b, cert_le_b, is_least_solution_b; Viterbi (finding F2, repaired in /repo commit d2ec7af): the former star (star(0)=inf) still yields a solution, a refutation witness for leastness, and leastness under the guard 'no pivot is exactly 0'. Tied to /repo by running model and implementation on the same exact-grid inputs (dense n <= 4, 4 semirings; block systems with every presence pattern of 2 blocks and sampled 3/4 blocks, transpose, recorded elimination order; PatternedTensor.solve on typed sparsity patterns, incl. product/sum-typed shift patterns whose solution support needs several closure steps, also as diagonal blocks of multi_solve) and judging every implementation output with the extracted oracles; arguments are byte-snapshotted. TIER B (PatternedTensor.solve, Model/PSolve.v): the while-loop that computes the least-dense solution axis (unify e with a's columns from an empty substitution, clone a's rows under the unifier, antiunify, exit when the antisubst is an injective renaming of physical axes) is modelled statement by statement; C09_psolve_loop_closed: on the normal exit, if nothing was warned about, the support of the computed axis contains the support of b and is closed under the pattern of a (ingredients: antiunify covers both arguments and, under the exit test, nothing more; completeness of unify without warnings; C09_unify_sized: a warning-free unifier preserves the sizes of the physical axes, so no premise on the unifier is left); C09_psolve_loop_early: on the b.clone() exit no column of a meets the support of b; C09_restricted_solve_is_least (any ordered star-semiring): gather along a closed support, dense solve, scatter = the dense solver on the whole system, i.e. the least solution vanishes outside the support and is the least solution of the projected system on it; C09_psolve_denotes_least / C09_psolve_equals_dense_solve (+ _bool/_real/_viterbi) and C09_psolve_early_exit_least compose them; C09_psolve_loop_terminates: at most amsr(e0)*(amsr(e0)+1) passes for patterns in normal form unless a warning is issued (each pass shrinks the weight of e or splits a shared axis: C09_antiunify_measure, C09_pass_splits; unify, clone and antiunify preserve the normal form: C09_normal_form_preserved), C09_psolve_loop_terminates_partial: the same for arbitrary patterns under a per-case premise on the trace; finding F25 (the exit test before /repo 6df0afb also fired when one axis had been split in two): C09_psolve_old_exit_refuted (vm_compute witness) and C09_psolve_old_exit_guarded; oracles contains_b / closed_b (sound and complete) / disjoint_b and C09_psolve_axis_check_sound (verdict 0 of the check function implies that the implementation's axis is a closed support containing b's). Correspondence: generated typed patterned systems (index types up to size 8 from atoms 2, 3 with products and sums; families: random typed patterns, shared axes between a and b, non-zero defaults, bit-product shift / rotate patterns with closure depth up to 4, the F25 class and its exact regression input, diagonal a / diagonal b, sum-typed blocks incl. disjoint supports, zero-size axes), the implementation instrumented (solve_thunks and Axis.antiunify wrapped) and compared with the model on exit kind, solution axis up to renaming, passes, warnings, gathered operands and scattered result; the dense result is judged by the dense check functions as well.",
+    text="Coq theorems, generic over an abstract ordered star-semiring (law records as premises): recursive elimination of the unknowns in ANY order yields a solution of x = A x + b (from star-unfold alone) that is below every pre-solution (from star-induction); the in-place Gauss-Jordan loop of Semiring.solve_thunks (modelled statement by statement on lists, vector and matrix right-hand sides) computes the same vector; the partial sums of sum A^k b are below it, with equality at N = dim in bool; the block version over an abstract ordered star-semimodule (non-commutative coefficients) and its instance by N x N matrices with the dense solver on the diagonal blocks; RealSemiring's LU fast path agrees with the generic routine when its oracle returns the unique rational solution; multi_mv equals the dense product of the assembled blocks (also transposed); the model of _order_nonterminals returns a duplicate-free enumeration of the keys for every set-iteration order; the matrix star over a commutative ordered star-semiring: A* = A* A + 1 from the left laws alone, (A^T)* = (A*)^T, the least solution of X = X A + B is (solve (A^T) (B^T))^T = B . A* (C09_right_solve_least, C09_mul_star_least, C09_solve_transposed, C09_star_transpose); C09_multi_solve_refines: multi_solve_model (block LU over the PRESENT blocks with a[x,z] := a[x,z] a[z,z]* computed by the transposed solve, Schur updates, block back-substitution) computes, block by block, the block elimination belim instantiated with matrices, for every key set with shapes, every presence pattern (absent = zero: annihilation, solve of a zero matrix = identity), every duplicate-free elimination order and both transpose flags; hence the assembled result is the LEAST solution of x = A x + b of the assembled dense system and equals solve_model of it (verdict 13 of the multi check is impossible), also with the order computed by the model of _order_nonterminals (empty a: order [], result b); soundness/completeness of the executable oracles is_solution_b, series_le_b, cert_le_b, is_least_solution_b; Viterbi (finding F2, repaired in /repo commit d2ec7af): the former star (star(0)=inf) still yields a solution, a refutation witness for leastness, and leastness under the guard 'no pivot is exactly 0'. Tied to /repo by running model and implementation on the same exact-grid inputs (dense n <= 4, 4 semirings; block systems with every presence pattern of 2 blocks and sampled 3/4 blocks, transpose, recorded elimination order; PatternedTensor.solve on typed sparsity patterns, incl. product/sum-typed shift patterns whose solution support needs several closure steps, also as diagonal blocks of multi_solve) and judging every implementation output with the extracted oracles; arguments are byte-snapshotted. TIER B (PatternedTensor.solve, Model/PSolve.v): the while-loop that computes the least-dense solution axis (unify e with a's columns from an empty substitution, clone a's rows under the unifier, antiunify, exit when the antisubst is an injective renaming of physical axes) is modelled statement by statement; C09_psolve_loop_closed: on the normal exit, if nothing was warned about, the support of the computed axis contains the support of b and is closed under the pattern of a (ingredients: antiunify covers both arguments and, under the exit test, nothing more; completeness of unify without warnings; C09_unify_sized: a warning-free unifier preserves the sizes of the physical axes, so no premise on the unifier is left); C09_psolve_loop_early: on the b.clone() exit no column of a meets the support of b; C09_restricted_solve_is_least (any ordered star-semiring): gather along a closed support, dense solve, scatter = the dense solver on the whole system, i.e. the least solution vanishes outside the support and is the least solution of the projected system on it; C09_psolve_denotes_least / C09_psolve_equals_dense_solve (+ _bool/_real/_viterbi) and C09_psolve_early_exit_least compose them; C09_psolve_tensor_least / C09_psolve_tensor_early_least: for patterned tensors a (matrix) and b (vector) with default zero, the model's result is the least solution of the system PTensor.denote gives (C06's denote_unbacked supplies the premises); C09_psolve_loop_terminates: at most amsr(e0)*(amsr(e0)+1) passes for patterns in normal form unless a warning is issued (each pass shrinks the weight of e or splits a shared axis: C09_antiunify_measure, C09_pass_splits; unify, clone and antiunify preserve the normal form: C09_normal_form_preserved), C09_psolve_loop_terminates_partial: the same for arbitrary patterns under a per-case premise on the trace; finding F25 (the exit test before /repo 6df0afb also fired when one axis had been split in two): C09_psolve_old_exit_refuted (vm_compute witness) and C09_psolve_old_exit_guarded; oracles contains_b / closed_b (sound and complete) / disjoint_b and C09_psolve_axis_check_sound (verdict 0 of the check function implies that the implementation's axis is a closed support containing b's). Correspondence: generated typed patterned systems (index types up to size 8 from atoms 2, 3 with products and sums; families: random typed patterns, shared axes between a and b, non-zero defaults, bit-product shift / rotate patterns with closure depth up to 4, the F25 class and its exact regression input, diagonal a / diagonal b, sum-typed blocks incl. disjoint supports, zero-size axes), the implementation instrumented (solve_thunks and Axis.antiunify wrapped) and compared with the model on exit kind, solution axis up to renaming, passes, warnings, gathered operands and scattered result; the dense result is judged by the dense check functions as well.",
     note="Trusted: Coq kernel + vm_compute, extraction cross-checked in the kernel on a sample and on every non-zero verdict, the Python harness (float <-> rational conversion, math.log/exp for the Log reading, 1e-9 tolerance), semiring law records of the carriers (premises of the generic theorems; proved under C08 and discharged in the _bool/_real/_viterbi instances). Tier B (PatternedTensor.solve): the axis loop is modelled and proved (closure of the computed support without any premise on the unifier, restriction theorem, least solution; F25 = premature exit of that loop, found by the proof attempt, repaired in /repo 6df0afb); open: that typed patterns never warn in later passes (termination is proved 'unless a warning is issued'), statement-level model of the projection. The refinement of multi_solve_model to the block elimination is proved (C09_multi_solve_refines*); the run-time comparison with the dense model (verdict 13) is kept as a redundant cross-check. F2 (Viterbi star at 0) was repaired in /repo commit d2ec7af; a regression shows as 'not the least solution'. Known findings: F18 (PatternedTensor.solve AssertionError on disjoint support), F21 (new: Real/Log return huge finite numbers for divergent systems whose pivots are not float-exact).",
     technique="Coq proof (model + theorems) + model/implementation correspondence with verified-spec oracles",
     design_ref="DESIGN.md section 6, C09; Appendix A.5, A.7; Appendix C (C09)")
